@@ -315,7 +315,9 @@ ParentsFirstOK(ids) ==
     \A i, j \in 1..Len(ids) : (Ins(ids[j]) \cap Outs(ids[i]) # {}) => i < j
 
 -----------------------------------------------------------------------------
-ObsOK  == [valid |-> TRUE, mine |-> TRUE, alias |-> TRUE, proofs |-> TRUE, nopanic |-> TRUE]
+\* asked / found: the transactions the harness looked up BY ID right after a reported pool (through the
+\* lookup of their own version), and those the lookup returned
+ObsOK  == [valid |-> TRUE, mine |-> TRUE, alias |-> TRUE, proofs |-> TRUE, nopanic |-> TRUE, asked |-> {}, found |-> {}]
 NoReply == [r |-> "none", ids |-> <<>>, eph |-> <<>>, k |-> 0]
 IdlePc == [busy |-> FALSE, rev |-> <<>>, app |-> <<>>]
 
@@ -510,6 +512,10 @@ TypeOK ==
 \* instance, which is validity of every prefix
 PrefixValid == (Fresh => PoolOK(pool1, pool2)) /\ obs.valid
 Retention   == Fresh => mustKeep \subseteq PoolIds
+\* "stays RETRIEVABLE": what the pool lists is also found by its id, and what the specification no longer
+\* holds as pooled is reported absent -- after every report, i.e. after submissions, blocks applied and
+\* reverted underneath, rebuilds and evictions (with Retention: every must-keep transaction is found)
+Retrievable == \A t \in obs.asked : (t \in obs.found) <=> (t \in PoolIds)
 RetentionStrict == Fresh => kept0 \subseteq PoolIds          \* without the tolerance of DevEphDrop
 NoInvention == PoolIds \subseteq offered /\ NoDup(pool1 \o pool2)
 Minable     == (act.op = "Mine" => reply.r = "accepted") /\ obs.mine
